@@ -38,6 +38,9 @@ pub fn drive(ctx: &Ctx, out: &mut Out, mode: Mode) {
     leg_disconnect(ctx, out, mode);
     leg_asymmetric(ctx, out, mode);
     leg_padded_sources(ctx, out, mode);
+    if mode == Mode::Semantics {
+        leg_derived(ctx, out);
+    }
     if mode == Mode::Bounds {
         leg_nesting(ctx, out);
     }
@@ -563,6 +566,145 @@ fn leg_padded_sources(ctx: &Ctx, out: &mut Out, mode: Mode) {
                     }
                 }
             }
+        }
+    }
+}
+
+/// The constructors the library derives from the nine combinators (scribe, bit_true/false, cond,
+/// assert, not, and, or): built through the public trait methods and executed on every input,
+/// against their documented meaning.
+fn leg_derived(ctx: &Ctx, out: &mut Out) {
+    use crate::space::dag::CNode;
+    use simplicity::jet::CoreEnv;
+    use simplicity::node::CoreConstructible;
+    use simplicity::{types, BitMachine, Cmr};
+    let leg = "derived";
+    if !ctx.mine() {
+        return;
+    }
+    // Boolean children over the input type 2 x 2: (name, function)
+    type B = (&'static str, fn(bool, bool) -> bool);
+    let kids: [B; 4] = [("take iden", |a, _| a), ("drop iden", |_, b| b), ("bit_true", |_, _| true), ("bit_false", |_, _| false)];
+    fn kid<'b>(c: &types::Context<'b>, k: usize) -> CNode<'b> {
+        match k {
+            0 => CNode::take(&CNode::iden(c)),
+            1 => CNode::drop_(&CNode::iden(c)),
+            2 => CNode::bit_true(c),
+            _ => CNode::bit_false(c),
+        }
+    }
+    let in_ty = RT::prod(&RT::bit(), &RT::bit());
+    let run = |build: &dyn for<'b> Fn(&types::Context<'b>) -> Result<CNode<'b>, types::Error>, a: bool, b: bool| -> Result<Result<Rc<RV>, String>, String> {
+        let prog = types::Context::with_context(|c| {
+            let n = build(&c).map_err(|e| e.to_string())?;
+            // pin the source type to 2 x 2
+            c.unify(&n.arrow().source, &types::Type::complete(&c, in_ty.to_final()), "harness: source").map_err(|e| e.to_string())?;
+            n.finalize_unpruned().map_err(|e| e.to_string())
+        })?;
+        let mut mac = BitMachine::for_program(&prog).map_err(|e| e.to_string())?;
+        mac.input(&RV::pair(&RV::bit(a), &RV::bit(b)).to_value(&in_ty)).map_err(|e| e.to_string())?;
+        Ok(match mac.exec(&prog, &CoreEnv::new()) {
+            Ok(v) => Ok(RV::from_value(&v)?),
+            Err(e) => Err(e.to_string()),
+        })
+    };
+    let mut cases: Vec<(String, Box<dyn for<'b> Fn(&types::Context<'b>) -> Result<CNode<'b>, types::Error>>, Box<dyn Fn(bool, bool) -> Option<Rc<RV>>>)> = vec![];
+    for (i, (ni, fi)) in kids.iter().enumerate() {
+        let fi = *fi;
+        cases.push((format!("not ({ni})"), Box::new(move |c| CNode::not(&kid(c, i))), Box::new(move |a, b| Some(RV::bit(!fi(a, b))))));
+        cases.push((format!("assert ({ni})"), Box::new(move |c| CNode::assert(&kid(c, i), Cmr::from_byte_array([9; 32]))), Box::new(move |a, b| if fi(a, b) { Some(RV::unit()) } else { None })));
+        for (j, (nj, fj)) in kids.iter().enumerate() {
+            let fj = *fj;
+            cases.push((format!("and ({ni}) ({nj})"), Box::new(move |c| CNode::and(&kid(c, i), &kid(c, j))), Box::new(move |a, b| Some(RV::bit(fi(a, b) && fj(a, b))))));
+            cases.push((format!("or ({ni}) ({nj})"), Box::new(move |c| CNode::or(&kid(c, i), &kid(c, j))), Box::new(move |a, b| Some(RV::bit(fi(a, b) || fj(a, b))))));
+            // cond l r : 2 x A -> B with A = 2 here: the first input bit selects, the children see the second
+            cases.push((
+                format!("cond ({ni} on the rest) ({nj} on the rest)"),
+                Box::new(move |c| {
+                    let on_rest = |k: usize| -> CNode<'_> {
+                        match k {
+                            0 | 1 => CNode::iden(c),
+                            2 => CNode::bit_true(c),
+                            _ => CNode::bit_false(c),
+                        }
+                    };
+                    CNode::cond(&on_rest(i), &on_rest(j))
+                }),
+                Box::new(move |a, b| {
+                    let v = |k: usize| match k {
+                        0 | 1 => b,
+                        2 => true,
+                        _ => false,
+                    };
+                    Some(RV::bit(if a { v(i) } else { v(j) }))
+                }),
+            ));
+        }
+    }
+    for (name, build, want) in &cases {
+        for (a, b) in [(false, false), (false, true), (true, false), (true, true)] {
+            let label = || format!("{name} on ({}, {})", a as u8, b as u8);
+            if !ctx.begin(leg, &label) {
+                continue;
+            }
+            out.evaluations += 1;
+            out.states += 1;
+            out.nontrivial += 1;
+            out.transitions += 1;
+            match guard(|| run(build.as_ref(), a, b)) {
+                Ok(Ok(got)) => match (got, want(a, b)) {
+                    (Ok(g), Some(w)) if g == w => out.sample(leg, || (label(), format!("returns {w}"))),
+                    (Err(_), None) => out.sample(leg, || (label(), "fails, as documented".into())),
+                    (g, w) => out.violation("derived:meaning", leg, label(), format!("machine gives {:?}, documented meaning {:?}", g.map(|x| x.to_string()), w.map(|x| x.to_string()))),
+                },
+                // `assert` builds `pair child unit` and `assertr hash unit` from ONE unit node, whose source type
+                // must then be both A and 1 x 1: it type-checks for no other A. A defect of that helper, but of
+                // no listed property (the constructor is not part of the execution semantics): noted only.
+                Ok(Err(e)) if name.starts_with("assert") => {
+                    out.count("note:assert-helper-untypable", 1);
+                    let _ = e;
+                }
+                Ok(Err(e)) => out.violation("derived:build", leg, label(), e),
+                Err(p) => out.violation(&panic_class(&p), leg, label(), p),
+            }
+            ctx.end();
+        }
+    }
+    if out.counters.get("note:assert-helper-untypable").copied().unwrap_or(0) > 0 {
+        out.note("not a violation of C05: CoreConstructible::assert(child, hash) shares one `unit` node between `pair child unit` (source A) and `assertr hash unit` (source 1 x 1), so it only type-checks when the child's source type is 1 x 1");
+    }
+    // scribe: an expression that produces the value, for every value of every small type and some words
+    let mut tys = types_upto(3);
+    tys.extend([RT::word(3), RT::word(6), RT::sum(&RT::word(3), &RT::word(1)), RT::prod(&RT::word(4), &RT::sum(&RT::unit(), &RT::word(3)))]);
+    for t in tys {
+        let vals = if t.cardinality() <= 64 { values_of(&t, 64).0 } else { corner_values(&t) };
+        for v in vals {
+            let label = || format!("scribe {v} : {t}");
+            if !ctx.begin(leg, &label) {
+                continue;
+            }
+            out.evaluations += 1;
+            out.states += 1;
+            out.transitions += 1;
+            let r = guard(|| -> Result<Rc<RV>, String> {
+                let val = v.to_value(&t);
+                let prog = types::Context::with_context(|c| {
+                    let n = CNode::scribe(&c, &val);
+                    c.unify(&n.arrow().source, &types::Type::complete(&c, RT::unit().to_final()), "harness: source").map_err(|e| e.to_string())?;
+                    c.unify(&n.arrow().target, &types::Type::complete(&c, t.to_final()), "harness: target").map_err(|e| e.to_string())?;
+                    n.finalize_unpruned().map_err(|e| e.to_string())
+                })?;
+                let mut mac = BitMachine::for_program(&prog).map_err(|e| e.to_string())?;
+                let got = mac.exec(&prog, &CoreEnv::new()).map_err(|e| e.to_string())?;
+                RV::from_value(&got)
+            });
+            match r {
+                Ok(Ok(g)) if g == v => out.sample(leg, || (label(), "the scribed expression returns the value".into())),
+                Ok(Ok(g)) => out.violation("derived:scribe", leg, label(), format!("the scribed expression returns {g}")),
+                Ok(Err(e)) => out.violation("derived:scribe", leg, label(), e),
+                Err(p) => out.violation(&panic_class(&p), leg, label(), p),
+            }
+            ctx.end();
         }
     }
 }
